@@ -262,8 +262,8 @@ class FileDataPdu(AbstractPduBase):
             data[current_idx : current_idx + struct_arg_tuple[1]],
         )[0]
         current_idx += struct_arg_tuple[1]
-        if current_idx < len(data):
-            file_data_packet._params.file_data = data[current_idx:]
+        # Use the setter so the data field length is recomputed from the final fields
+        file_data_packet.file_data = data[current_idx:]
         return file_data_packet
 
     @property
